@@ -21,7 +21,7 @@ from fractions import Fraction
 
 VERIF = '/verif'
 COQ = os.path.join(VERIF, 'coq')
-REPO = '/repo'
+REPO = os.environ.get('VERIF_REPO', '/repo')
 PY = '/venv/bin/python'
 COQFLAGS = ['-Q', '.', 'PA']
 NPROC = 16
@@ -111,8 +111,11 @@ def scan_forbidden():
 
 def coq_make(targets, timeout=1500):
     """make the given .vo targets (paths relative to coq/). Returns (ok, log)."""
-    coq_project()
-    rc, out = sh(['make', '-j%d' % NPROC, '-k'] + list(targets), cwd=COQ, timeout=timeout)
+    import fcntl
+    with open(os.path.join(COQ, '.build.lock'), 'w') as lk:
+        fcntl.flock(lk, fcntl.LOCK_EX)      # one make at a time in coq/
+        coq_project()
+        rc, out = sh(['make', '-j%d' % NPROC, '-k'] + list(targets), cwd=COQ, timeout=timeout)
     return rc == 0, out
 
 
@@ -303,6 +306,12 @@ class Ctx:
         self.notes = []
         os.makedirs(os.path.join(VERIF, 'replays'), exist_ok=True)
         os.makedirs(os.path.join(VERIF, 'evidence'), exist_ok=True)
+        for f in os.listdir(os.path.join(VERIF, 'replays')):
+            if f.startswith(pid + '-'):
+                try:
+                    os.remove(os.path.join(VERIF, 'replays', f))
+                except OSError:
+                    pass
 
     @property
     def quick(self):
